@@ -1,9 +1,13 @@
 /-
 `receive`: `LDAPSession.receive` for both classes of `self`, and the wrappers `LDAPClient.receive`,
-`LDAPServer.receive` that attach the notification: generated text = the model's `recv`, when the abstracted
-unpacking statement did what the model's parse loop does.
+`LDAPServer.receive` that attach the notification: generated text = the model's `recv`.
+
+Round 12 (audit item S2): the unpacking statement of `receive` is translated too; the only parameter left is
+`unpack` = the call `unpack_ldap_message(reader, options)`, instantiated here with the model's one-message decoder
+`decMsg regs depth`.  The loop theorems are in `SessionGenUnpack.lean`; `parseLoop` is now what the generated loops
+are PROVED to compute, not an assumption about an abstracted statement.
 -/
-import Verif.Proofs.SessionGenRecv
+import Verif.Proofs.SessionGenUnpack
 
 set_option linter.unusedSimpArgs false
 
@@ -11,21 +15,74 @@ namespace Verif.Proofs.SessionGen
 
 open Verif Verif.PyRtS Verif.SessionGen
 
-/-- exception class of the unpacking statement for an error class of the model's parse loop -/
-def excOfErr : Err → Exc
-  | .valueError => .valueError
-  | .notImpl => .notImplementedError
-  | .recursion => .recursionError
-  | .notEnough => .valueError      -- never the result of `parseLoop`
+/-- exception class of the unpacking for an error class of the model's parse loop (= the runtime's `unpackExc`) -/
+abbrev excOfErr : Err → Exc := unpackExc
 
-/-- ASSUMPTION about the abstracted statement (the unpacking half of `receive`): it leaves `incoming_msgs`
-    and `_incoming_buffer` as the model's `parseLoop` says and raises the class it says.
-    The components are ordered as the generated parameter `abs1` orders them: (`_incoming_buffer`,
-    `incoming_msgs`). -/
-def unpackOracle (regs : Regs) (depth : Nat) (residue chunk : Bytes) : Abstracted (List Nat × List Msg) :=
-  match parseLoop regs depth (residue ++ chunk).length (residue ++ chunk) with
-  | .ok (ms, rest) => ⟨(rest, ms), none⟩
-  | .error e => ⟨(residue ++ chunk, []), some (excOfErr e)⟩
+/-- what the Python leaves in `_incoming_buffer` when the unpacking RAISES: with a non-empty buffer the buffer
+    extended by `data` (the assignment after the loop is not reached); with an empty buffer it parses `data` in
+    place and the buffer stays empty.  (The model's `recv` has `residue ++ chunk` in both cases.) -/
+def pyResidueOnError (residue chunk : Bytes) : Bytes := if residue.isEmpty then [] else residue ++ chunk
+
+/-- the model's `recv` with the ONE difference between model and code made explicit: the residue after a failed
+    unpacking (see `pyResidueOnError`); everything else is `recv` verbatim (`recvPy_eq_recv`, `recvPy_forget`) -/
+def recvPy (depth : Nat) (s : Sess) (chunk : Bytes) : Sess × Outcome :=
+  if s.state = .closed then (s, .protocolError (notificationFor s.role false false))
+  else
+    let buf := s.residue ++ chunk
+    match parseLoop s.regs depth buf.length buf with
+    | .error _ =>
+      (closeSess { s with residue := pyResidueOnError s.residue chunk },
+        .protocolError (notificationFor s.role false false))
+    | .ok (ms, rest) =>
+      let s1 := { s with residue := rest }
+      match processLoop s1 ms with
+      | .ok s2 => (s2, .msgs ms)
+      | .protoErr s2 u n => (closeSess s2, .protocolError (notificationFor s.role u n))
+      | .keyErr s2 => (s2, .keyError)
+
+/-- `recvPy` is `recv` whenever the buffer was non-empty before the call, or the unpacking does not raise -/
+theorem recvPy_eq_recv (depth : Nat) (s : Sess) (chunk : Bytes)
+    (h : s.residue ≠ [] ∨ ∃ p, parseLoop s.regs depth (s.residue ++ chunk).length (s.residue ++ chunk) = .ok p) :
+    recvPy depth s chunk = recv depth s chunk := by
+  unfold recvPy recv
+  split
+  · rfl
+  · dsimp only
+    cases hpl : parseLoop s.regs depth (s.residue ++ chunk).length (s.residue ++ chunk) with
+    | ok p => rfl
+    | error e =>
+      rcases h with h | ⟨p, hp⟩
+      · cases hr : s.residue with
+        | nil => exact absurd hr h
+        | cons b bs => simp [pyResidueOnError]
+      · rw [hpl] at hp; cases hp
+
+/-- forget the residue -/
+def forgetResidue (x : Sess × Outcome) : Sess × Outcome := ({ x.1 with residue := [] }, x.2)
+
+/-- in every case `recvPy` and `recv` differ at most in the residue, and only in a session that is CLOSED -/
+theorem recvPy_forget (depth : Nat) (s : Sess) (chunk : Bytes) :
+    forgetResidue (recvPy depth s chunk) = forgetResidue (recv depth s chunk) := by
+  unfold recvPy recv
+  split
+  · rfl
+  · dsimp only
+    cases hpl : parseLoop s.regs depth (s.residue ++ chunk).length (s.residue ++ chunk) with
+    | ok p => rfl
+    | error e => simp [forgetResidue, closeSess]
+
+theorem recvPy_differs_only_closed (depth : Nat) (s : Sess) (chunk : Bytes)
+    (h : recvPy depth s chunk ≠ recv depth s chunk) :
+    (recvPy depth s chunk).1.state = .closed ∧ (recv depth s chunk).1.state = .closed := by
+  unfold recvPy recv at h ⊢
+  split
+  · rename_i hc; simp [hc] at h
+  · rename_i hc
+    simp only [hc, if_false] at h
+    dsimp only at h ⊢
+    cases hpl : parseLoop s.regs depth (s.residue ++ chunk).length (s.residue ++ chunk) with
+    | ok p => rw [hpl] at h; exact absurd rfl h
+    | error e => simp [closeSess]
 
 /-- what `e.response` is for each `Notification` of the model (`text` is `str(e)`) -/
 def notifBytes (text : Bytes) : Notification → Option Bytes
@@ -111,20 +168,53 @@ theorem absS_residue_upd (r : Role) (regs : Regs) (st : St) (rest : Bytes) :
       = absS r regs { st with incoming_buffer := rest } := rfl
 
 theorem client_receive_eq (regs : Regs) (depth : Nat) (st : St) (chunk : Bytes) :
-    LDAPClient_receive st chunk (unpackOracle regs depth st.incoming_buffer chunk)
+    LDAPClient_receive st chunk (decMsg regs depth)
       = recvRes st.version [] (recvRequest depth (absS .client regs st) chunk)
-          (recv depth (absS .client regs st) chunk) := by
-  unfold LDAPClient_receive LDAPClient_LDAPSession_receive recv recvRequest unpackOracle
+          (recvPy depth (absS .client regs st) chunk) := by
+  unfold LDAPClient_receive LDAPClient_LDAPSession_receive recvPy recvRequest
   by_cases hc : st.state = .CLOSED
   · have hc' : (absS .client regs st).state = .closed := (state_closed_iff st).2 hc
     simp [hc, recvRes, notificationFor, notifBytes, isInstanceOpt, unbindMsg, absState]
   · have hc' : ¬ (absS .client regs st).state = .closed := fun h => hc ((state_closed_iff st).1 h)
     simp only [hc', if_false, absS_regs, absS_residue, absS_role]
     simp only [beq_iff_eq, hc, if_false]
+    -- both paths compute `parseLoop` on `_incoming_buffer ++ data` (`client_while1_eq`, `client_while2_eq`)
+    have hbody : ∀ (k : List Msg → St → Res St (List Msg)),
+        (if (!(st.incoming_buffer).isEmpty) = true then
+          (Res.bind (LDAPClient_LDAPSession_receive_while1 (decMsg regs depth) (st.incoming_buffer ++ chunk).length
+              (st.incoming_buffer ++ chunk) [] { st with incoming_buffer := st.incoming_buffer ++ chunk })
+            fun w self => k w.2 { self with incoming_buffer := w.1 })
+        else
+          (Res.bind (LDAPClient_LDAPSession_receive_while2 (decMsg regs depth) chunk.length chunk [] st)
+            fun w self => k w.2 self))
+        = match parseLoop regs depth (st.incoming_buffer ++ chunk).length (st.incoming_buffer ++ chunk) with
+          | .ok (ms, rest) => k ms { st with incoming_buffer := rest }
+          | .error e => (.error (unpackExc e), { st with incoming_buffer := pyResidueOnError st.incoming_buffer chunk }) := by
+      intro k
+      cases hb : st.incoming_buffer with
+      | nil =>
+        simp only [List.isEmpty_nil, Bool.not_true, Bool.false_eq_true, if_false, List.nil_append]
+        rw [client_while2_eq regs depth _ _ _ _ hb]
+        cases parseLoop regs depth chunk.length chunk with
+        | error e =>
+          have : ({ st with incoming_buffer := [] } : St) = st := st_set_in_nil st hb
+          simp [whileResDirect, pyResidueOnError, ← hb, this]
+        | ok q => rcases q with ⟨ms, rest⟩; simp [whileResDirect]
+      | cons b bs =>
+        simp only [List.isEmpty_cons, Bool.not_false, if_true]
+        rw [client_while1_eq]
+        cases parseLoop regs depth (b :: bs ++ chunk).length (b :: bs ++ chunk) with
+        | error e => simp [whileRes, pyResidueOnError]
+        | ok q => rcases q with ⟨ms, rest⟩; simp [whileRes]
+    have hb2 := hbody (fun ms self =>
+      Res.bind (LDAPClient_LDAPSession_receive_for1 ms self) fun _ self => (.ok ms, self))
+
+    rw [hb2]
+    clear hb2 hbody
     cases hpl : parseLoop regs depth (st.incoming_buffer ++ chunk).length (st.incoming_buffer ++ chunk) with
     | error e =>
       cases e <;>
-        simp [excOfErr, recvRes, closeSess, notificationFor, notifBytes, isInstanceOpt, unbindMsg, concS, absS,
+        simp [unpackExc, recvRes, closeSess, notificationFor, notifBytes, isInstanceOpt, unbindMsg, concS, absS,
           concState]
     | ok p =>
       rcases p with ⟨ms, rest⟩
@@ -144,20 +234,53 @@ theorem client_receive_eq (regs : Regs) (depth : Nat) (st : St) (chunk : Bytes) 
 /-! ### `LDAPServer.receive` -/
 
 theorem server_receive_eq (regs : Regs) (depth : Nat) (st : St) (chunk : Bytes) (text : Bytes) :
-    LDAPServer_receive st chunk (unpackOracle regs depth st.incoming_buffer chunk) text
+    LDAPServer_receive st chunk (decMsg regs depth) text
       = recvRes st.version text (recvRequest depth (absS .server regs st) chunk)
-          (recv depth (absS .server regs st) chunk) := by
-  unfold LDAPServer_receive LDAPServer_LDAPSession_receive recv recvRequest unpackOracle
+          (recvPy depth (absS .server regs st) chunk) := by
+  unfold LDAPServer_receive LDAPServer_LDAPSession_receive recvPy recvRequest
   by_cases hc : st.state = .CLOSED
   · have hc' : (absS .server regs st).state = .closed := (state_closed_iff st).2 hc
     simp [hc, recvRes, notificationFor, notifBytes, isInstanceOpt, noticeMsg, oid_eq, protoerr_eq, absState]
   · have hc' : ¬ (absS .server regs st).state = .closed := fun h => hc ((state_closed_iff st).1 h)
     simp only [hc', if_false, absS_regs, absS_residue, absS_role]
     simp only [beq_iff_eq, hc, if_false]
+    -- both paths compute `parseLoop` on `_incoming_buffer ++ data` (`server_while1_eq`, `server_while2_eq`)
+    have hbody : ∀ (k : List Msg → St → Res St (List Msg)),
+        (if (!(st.incoming_buffer).isEmpty) = true then
+          (Res.bind (LDAPServer_LDAPSession_receive_while1 (decMsg regs depth) (st.incoming_buffer ++ chunk).length
+              (st.incoming_buffer ++ chunk) [] { st with incoming_buffer := st.incoming_buffer ++ chunk })
+            fun w self => k w.2 { self with incoming_buffer := w.1 })
+        else
+          (Res.bind (LDAPServer_LDAPSession_receive_while2 (decMsg regs depth) chunk.length chunk [] st)
+            fun w self => k w.2 self))
+        = match parseLoop regs depth (st.incoming_buffer ++ chunk).length (st.incoming_buffer ++ chunk) with
+          | .ok (ms, rest) => k ms { st with incoming_buffer := rest }
+          | .error e => (.error (unpackExc e), { st with incoming_buffer := pyResidueOnError st.incoming_buffer chunk }) := by
+      intro k
+      cases hb : st.incoming_buffer with
+      | nil =>
+        simp only [List.isEmpty_nil, Bool.not_true, Bool.false_eq_true, if_false, List.nil_append]
+        rw [server_while2_eq regs depth _ _ _ _ hb]
+        cases parseLoop regs depth chunk.length chunk with
+        | error e =>
+          have : ({ st with incoming_buffer := [] } : St) = st := st_set_in_nil st hb
+          simp [whileResDirect, pyResidueOnError, ← hb, this]
+        | ok q => rcases q with ⟨ms, rest⟩; simp [whileResDirect]
+      | cons b bs =>
+        simp only [List.isEmpty_cons, Bool.not_false, if_true]
+        rw [server_while1_eq]
+        cases parseLoop regs depth (b :: bs ++ chunk).length (b :: bs ++ chunk) with
+        | error e => simp [whileRes, pyResidueOnError]
+        | ok q => rcases q with ⟨ms, rest⟩; simp [whileRes]
+    have hb2 := hbody (fun ms self =>
+      Res.bind (LDAPServer_LDAPSession_receive_for1 ms self) fun _ self => (.ok ms, self))
+
+    rw [hb2]
+    clear hb2 hbody
     cases hpl : parseLoop regs depth (st.incoming_buffer ++ chunk).length (st.incoming_buffer ++ chunk) with
     | error e =>
       cases e <;>
-        simp [excOfErr, recvRes, closeSess, notificationFor, notifBytes, isInstanceOpt, noticeMsg, oid_eq, protoerr_eq, concS, absS,
+        simp [unpackExc, recvRes, closeSess, notificationFor, notifBytes, isInstanceOpt, noticeMsg, oid_eq, protoerr_eq, concS, absS,
           concState]
     | ok p =>
       rcases p with ⟨ms, rest⟩
@@ -176,41 +299,27 @@ theorem server_receive_eq (regs : Regs) (depth : Nat) (st : St) (chunk : Bytes) 
 
 /-! ### the incoming buffer after a failed unpacking
 
-`unpackOracle` follows the model: after an error `_incoming_buffer` is `residue ++ chunk`.  The Python does that
-only when the buffer was non-empty before the call; with an empty buffer it parses `data` in place and leaves
-the buffer EMPTY.  The session is CLOSED then and nothing reads the buffer again; the two theorems below say
-that whatever the statement leaves there, every other field and the outcome are as `tie_*_receive` say. -/
-
-/-- as `unpackOracle`, with `b` in `_incoming_buffer` after an error -/
-def unpackOracleB (b : Bytes) (regs : Regs) (depth : Nat) (residue chunk : Bytes) :
-    Abstracted (List Nat × List Msg) :=
-  match parseLoop regs depth (residue ++ chunk).length (residue ++ chunk) with
-  | .ok (ms, rest) => ⟨(rest, ms), none⟩
-  | .error e => ⟨(b, []), some (excOfErr e)⟩
+The one place where the code and the model's `recv` differ (`pyResidueOnError`) is invisible in every other field
+and in the outcome: -/
 
 /-- forget `_incoming_buffer` -/
 def forgetIn {α : Type} (x : Res St α) : Res St α := (x.1, { x.2 with incoming_buffer := [] })
 
-theorem client_receive_any_buffer (b : Bytes) (regs : Regs) (depth : Nat) (st : St) (chunk : Bytes) :
-    forgetIn (LDAPClient_receive st chunk (unpackOracleB b regs depth st.incoming_buffer chunk))
-      = forgetIn (LDAPClient_receive st chunk (unpackOracle regs depth st.incoming_buffer chunk)) := by
-  unfold LDAPClient_receive LDAPClient_LDAPSession_receive unpackOracleB unpackOracle
-  by_cases hc : st.state = .CLOSED
-  · simp [hc]
-  · simp only [beq_iff_eq, hc, if_false]
-    cases hpl : parseLoop regs depth (st.incoming_buffer ++ chunk).length (st.incoming_buffer ++ chunk) with
-    | error e => cases e <;> simp [excOfErr, forgetIn]
-    | ok p => rfl
+theorem forgetIn_recvRes (v : Int) (text : Bytes) (req : Option Msg) (x : Sess × Outcome) :
+    forgetIn (recvRes v text req x) = forgetIn (recvRes v text req (forgetResidue x)) := by
+  rcases x with ⟨s, o⟩
+  cases o <;> simp [recvRes, forgetIn, forgetResidue, concS]
 
-theorem server_receive_any_buffer (b : Bytes) (regs : Regs) (depth : Nat) (st : St) (chunk text : Bytes) :
-    forgetIn (LDAPServer_receive st chunk (unpackOracleB b regs depth st.incoming_buffer chunk) text)
-      = forgetIn (LDAPServer_receive st chunk (unpackOracle regs depth st.incoming_buffer chunk) text) := by
-  unfold LDAPServer_receive LDAPServer_LDAPSession_receive unpackOracleB unpackOracle
-  by_cases hc : st.state = .CLOSED
-  · simp [hc]
-  · simp only [beq_iff_eq, hc, if_false]
-    cases hpl : parseLoop regs depth (st.incoming_buffer ++ chunk).length (st.incoming_buffer ++ chunk) with
-    | error e => cases e <;> simp [excOfErr, forgetIn]
-    | ok p => rfl
+theorem client_receive_any_buffer (regs : Regs) (depth : Nat) (st : St) (chunk : Bytes) :
+    forgetIn (LDAPClient_receive st chunk (decMsg regs depth))
+      = forgetIn (recvRes st.version [] (recvRequest depth (absS .client regs st) chunk)
+          (recv depth (absS .client regs st) chunk)) := by
+  rw [client_receive_eq, forgetIn_recvRes, recvPy_forget, ← forgetIn_recvRes]
+
+theorem server_receive_any_buffer (regs : Regs) (depth : Nat) (st : St) (chunk text : Bytes) :
+    forgetIn (LDAPServer_receive st chunk (decMsg regs depth) text)
+      = forgetIn (recvRes st.version text (recvRequest depth (absS .server regs st) chunk)
+          (recv depth (absS .server regs st) chunk)) := by
+  rw [server_receive_eq, forgetIn_recvRes, recvPy_forget, ← forgetIn_recvRes]
 
 end Verif.Proofs.SessionGen
